@@ -19,6 +19,7 @@ package memfs
 import (
 	"io"
 	"io/fs"
+	"math"
 	"time"
 
 	"github.com/avfs/avfs"
@@ -379,7 +380,7 @@ func (f *MemFile) ReadDir(n int) (entries []fs.DirEntry, err error) {
 	}
 
 	end := start + n
-	if end > len(f.dirEntries) {
+	if end > len(f.dirEntries) || end < start {
 		end = len(f.dirEntries)
 	}
 
@@ -464,7 +465,7 @@ func (f *MemFile) Readdirnames(n int) (names []string, err error) {
 	}
 
 	end := start + n
-	if end > len(f.dirNames) {
+	if end > len(f.dirNames) || end < start {
 		end = len(f.dirNames)
 	}
 
@@ -779,6 +780,11 @@ func (f *MemFile) WriteAt(b []byte, off int64) (n int, err error) {
 		}
 
 		return 0, &fs.PathError{Op: op, Path: f.name, Err: err}
+	}
+
+	if off > math.MaxInt64-int64(len(b)) {
+		// the end of the write is beyond the largest offset : pwrite(2) refuses it.
+		return 0, &fs.PathError{Op: op, Path: f.name, Err: f.vfs.err.InvalidArgument}
 	}
 
 	verifYield(&nd.mu, true)
